@@ -32,6 +32,7 @@ func c13(c *eng.Ctx, r *eng.Report) {
 		"R13.7 recovery keeps nothing between calls: no cache, package-variable store or shared object in the cone of recoverSignature/RecoverGroupSignature (a memo keyed by the signer *set* and holding per-*position* coefficients is right for the first arrival order only). " +
 		"R13.8 a member signs with the key the DKG gave it, also after a restart: the record written for the signing key is exactly SignSecKey.Serialize() (a variable-length big-endian integer) and what is read back is handed to Deserialize whole — no re-slicing at a fixed width, nothing appended to the same record; " +
 		"R13.9 a share piece reaches only the member it was evaluated for: the two senders of share pieces (the initial deal and the answer to a re-request) use the unicast SendToStranger with the receiver's id — a ResponseSharePiece carries no receiver field, so a group-wide spread lets another member that still misses this dealer's piece adopt f(requester). " +
+		"R13.10 all members sign the same curve point H(m): the big-endian encodings between message and point (HashToPoint's coordinates, id and scalar encoders) are right-aligned, each in a buffer of its own (C14's R14.5 under this property's id — a coordinate with a leading zero byte must not inherit bytes of the previous one); " +
 		"Not decided: that interpolation over any ≥k points yields the same group element (algebra), DKG secrecy/robustness, hash-to-curve, anything about the pairing."
 	r.Trusted = append(r.Trusted, "math/big arithmetic", "consensus/groupsig/bn256 curve arithmetic (Add, ScalarMult are the group law)", "common.ToHex is an injective hex rendering of its byte argument")
 	r.Assume = append(r.Assume, "member ids are distinct and non-zero modulo the curve order (ids are SHA3 of public keys)")
@@ -44,6 +45,9 @@ func c13(c *eng.Ctx, r *eng.Report) {
 	c13RecoveryPure(c, r)
 	c13KeyAtRest(c, r)
 	c13PieceRouting(c, r)
+	// R13.10: every member signs the same point H(m): the fixed-width encodings on the way from message to curve
+	// point (HashToPoint, the id and scalar encoders) are right-aligned in a buffer of their own (C14's R14.5 here)
+	c14LeftPadAs(c, r, "R13.10")
 }
 
 func isGetGroupK(v ssa.Value) *ssa.Call {
